@@ -150,7 +150,7 @@ def buffer_protocol(ctx, rep, rule: str, cls_q: str) -> None:
         mod = ast.Module(body=body, type_ignores=[])
         inside = {id(n) for n in ast.walk(mod)}
         writes = sorted([w for w in pts.writes if w.func == fi.qual and id(w.node) in inside], key=lambda w: w.node.lineno)
-        gathers = [c for c in A.calls(mod) if any(q.endswith(".all_gather_into_tensor") for q in pts.callees(fi.qual, c))]
+        gathers = [c for c in A.calls(mod) if any(q.replace(":", ".").endswith(".all_gather_into_tensor") for q in pts.callees(fi.qual, c))]
         ok = len(gathers) == 1
         if not ok:
             rep.ob(rule, f"protocol:{ci.name}:{bname}:one-gather", False, fi.loc(), f"{len(gathers)} all-gather call(s) in the {bname} branch; exactly one is required on every step")
